@@ -305,7 +305,8 @@ def main(tier, rep):
             plans.append(("pc", [["bad"], other], ms, 2, "line", 3))
     # quit() hands its connection back on two paths (its own clean-up and the context manager's): two preemptions next to a
     # call that is in the middle of its exchange
-    for ms in (1, 2):
+    # (the thorough tier explores every pair of pooled-client calls with two preemptions anyway)
+    for ms in ((1, 2) if tier == "quick" else ()):
         for other in (["ok"], ["quit"]):
             plans.append(("pc", [["quit"], other], ms, 2, "line", 4))
     if tier == "thorough":
